@@ -54,7 +54,7 @@ func c05MaxLen(tier string) (a1, a2 int) {
 
 func c05MutUnits(tier string) (units, perUnit, sampledOffsets int) {
 	if tier == "thorough" {
-		return 1000, 6, 96
+		return 500, 3, 64
 	}
 	return 160, 2, 24
 }
